@@ -63,7 +63,7 @@ prop('C03', 'model_checking', 'exhaustive enumeration of generated journals (tra
 prop('C04', 'fault_enumeration', 'exhaustive crash-point enumeration: every prefix of the recorded device-write/fsync trace of a recovery x every subset of not-yet-flushed writes lost, invariant on each crash image and differential re-run',
      'For each journal of a family (all two-transaction shapes over two targets, 12-block transactions that overflow the block cache, wrapped logs; two formats) and each front-end (e2fsck journal-only, e2fsck -fy, debugfs jr) the write/fsync trace is recorded from the unmodified binary; '
      'every crash image (prefix x lost subset of the unflushed window; all subsets up to 10 pending writes) is checked: I1 journal-empty or needs_recovery-clear implies all replayed blocks are final on that image; I2 re-running recovery reproduces the uninterrupted result.',
-     'block-granular crash model (a pwrite is durable or lost as a whole; durability at the next fsync). When a crash tears the byte-granular primary-superblock update the re-run uses e2fsck -b <backup> as documented. Internal journals only.', '4/C04')
+     'block-granular crash model (a pwrite is durable or lost as a whole; durability at the next fsync). When a crash tears the byte-granular primary-superblock update the re-run uses e2fsck -b <backup> as documented. Internal journals for all three front-ends; an external journal device (two traced files, durability per descriptor) for e2fsck.', '4/C04')
 
 prop('C06', 'fault_enumeration', 'exhaustive deviation-bounded corruption sweep (field catalogue k<=1, every metadata byte of a tiny image x 4 treatments, header bytes of external journal / undo file / qcow2; thorough: representative pairs) through AddressSanitizer builds of every tool',
      'Every single-field catalogue mutant of corpus images (quick: ext4csum; thorough: all 13) and every byte of every metadata block of a 128-block filesystem under {0x00, 0xff, ^0x01, ^0x80}, plus the same treatments over an external journal, an undo file and a qcow2 image, '
